@@ -150,6 +150,10 @@ func lexWords(src string) (words []string, toks []lexer.Token, ok bool) {
 			if tok == lexer.ILLEGAL {
 				return nil, nil, false
 			}
+			// parser.nextRegex rejects a regex that Go's regexp cannot compile; regexp is not modelled
+			if _, err := regexp.Compile("(?s:" + val + ")"); err != nil {
+				return nil, nil, false
+			}
 		}
 		var w string
 		switch {
@@ -298,7 +302,11 @@ func main() {
 	}
 	rep := hx.NewReport("C04", o.Seed, o.Tier)
 	rep.Rule = "distinct = distinct program texts; non-trivial = accepted by the parser and containing at least two operators"
-	r := hx.NewRand(o.Seed)
+	// hx.NewRand(s) and hx.NewRand(s+1) are the same stream shifted by one draw: spread the seeds first
+	z := o.Seed + 0x9E3779B97F4A7C15
+	z = (z ^ (z >> 30)) * 0xBF58476D1CE4E5B9
+	z = (z ^ (z >> 27)) * 0x94D049BB133111EB
+	r := hx.NewRand(z ^ (z >> 31))
 	cases := genCases(o, r)
 
 	// model answers in one batch
@@ -307,7 +315,7 @@ func main() {
 	for i, c := range cases {
 		words, _, ok := lexWords(c.src)
 		if !ok {
-			rep.Count("skipped:lexer-illegal")
+			rep.Count("skipped:lexer-illegal-or-invalid-regex")
 			continue
 		}
 		if c.skip > len(words) {
